@@ -155,7 +155,12 @@ def r1_escape_return_mode(ctx):
         for tok in etoks:
             starts = [(t, tk) for (t, tk) in n.esucc() if tk == tok]
             # (a) no path to the exceptional exit of RUN
-            p = graph.exc_path(starts, lambda x: x is g.raise_exit, efilter=ef, stop=[loop])
+            # an escape is an exception in flight that leaves the loop; leaving it by normal flow (break) is fine
+            def ef_a(a, b, kind, tk, ef=ef):
+                if kind == 'n' and id(a) in loop_ids and id(b) not in loop_ids:
+                    return False
+                return ef(a, b, kind, tk)
+            p = graph.exc_path(starts, lambda x: x is g.raise_exit, efilter=ef_a, stop=[loop])
             # (b) leaving the loop requires a recorded failure
             q = graph.exc_path(starts, lambda x: id(x) not in loop_ids and x is not g.raise_exit, efilter=ef, avoid=fail_stores + graceful, stop=[loop])
             tokname = tok[1].split('.')[-1] if len(tok) > 1 else tok[0]
